@@ -474,3 +474,100 @@ func lemmaOriginRoundTrip(p []byte) ([]byte, int) {
 //@ func GenBankParser(state *pars.State, result *pars.Result) (err error)
 //@   prop C07
 //@   requires !isnil(state) && !isnil(result)
+
+// ---------------------------------------------------------------------------------------------
+// C17: the FASTA path.  The text itself is produced by go-wrap and fmt and read by go-pars
+// combinators (outside the verified subset; exercised by /verif/bounded/fasta_bounded_test.go).
+// What this package contributes is under contract: which description and which bytes are handed
+// to those libraries, and which value is built from the tokens they hand back.
+//
+// strOf(x): the text x.String() of a fmt.Stringer (deterministic; assumed for the interface,
+// GenBankFields.String has its own contract below).
+//@ spec func strOf(x any) string uninterpreted
+//@ external func (x fmt.Stringer) String() (s string)
+//@   trusted interface contract: String() is pure and deterministic
+//@   ensures s == strOf(x)
+//@   assigns nothing
+
+//@ func (f Fasta) Info() (info any)
+//@   prop C17
+//@   ensures is(info, string) && info.(string) == f.Desc
+//@   assigns nothing
+//@ func (f Fasta) Bytes() (p []byte)
+//@   prop C17
+//@   ensures sameslice(p, f.Data)
+//@   assigns nothing
+//@ func (f Fasta) Features() (ff gts.FeatureSlice)
+//@   prop C17
+//@   ensures len(ff) == 0
+//@   assigns nothing
+
+// One record: '>' + the description with line breaks blanked + '\n' + the residues wrapped at
+// 70 columns + '\n', written with a single WriteString.
+//@ func (f Fasta) WriteTo(w io.Writer) (n int64, err error)
+//@   prop C17
+//@   callpre ReplaceAll(s0, o0, n0): s0 == f.Desc && o0 == "\n" && n0 == " "
+//@   callpre Force(s0, w0): w0 == 70 && len(s0) == len(f.Data) && (forall k in 0..len(s0): s0[k] == f.Data[k])
+//@   callpre Sprintf(fm, a): fm == ">%s\n%s\n" && len(a) == 2 && is(a[0], string) && a[0].(string) == desc && is(a[1], string) && a[1].(string) == data
+//@   callpre WriteString(w0, s0): w0 == w && s0 == s
+//@   assigns nothing
+
+// The description of a GenBank record written as FASTA: version, then for a slice the 1-based
+// inclusive window, then the definition.
+//@ func (gbf GenBankFields) String() (s string)
+//@   prop C17
+//@   callpre Sprintf(fm, a): (is(gbf.Region, gts.Segment) ==> fm == "%s:%d-%d %s" && len(a) == 4 && is(a[0], string) && a[0].(string) == gbf.Version && is(a[1], int) && a[1].(int) == gbf.Region.(gts.Segment)[0] + 1 && is(a[2], int) && a[2].(int) == gbf.Region.(gts.Segment)[1] && is(a[3], string) && a[3].(string) == gbf.Definition)
+//@   callpre Sprintf(fm, a): (!is(gbf.Region, gts.Segment) ==> fm == "%s %s" && len(a) == 2 && is(a[0], string) && a[0].(string) == gbf.Version && is(a[1], string) && a[1].(string) == gbf.Definition)
+//@   assigns nothing
+
+//@ func (gb GenBank) Info() (info any)
+//@   prop C17
+//@   ensures is(info, GenBankFields) && info.(GenBankFields) == gb.Fields
+//@   assigns nothing
+
+// FastaWriter.WriteSeq: a Fasta is written as it is; any other sequence is written as the
+// Fasta made of its metadata text (the string itself, or String() of a Stringer such as
+// GenBankFields) and its residues.
+//@ func (w FastaWriter) WriteSeq(seq gts.Sequence) (n int, err error)
+//@   prop C17
+//@   requires is(seq, *Fasta) ==> !isnil(seq.(*Fasta))
+//@   callpre WriteTo(self, w0): w0 == w.w && is(seq, Fasta) && self.Desc == seq.(Fasta).Desc && sameslice(self.Data, seq.(Fasta).Data)
+//@   callpre WriteSeq(self, s0): self.w == w.w && is(s0, Fasta) && (is(seq, *Fasta) ==> s0.(Fasta).Desc == seq.(*Fasta).Desc && sameslice(s0.(Fasta).Data, seq.(*Fasta).Data)) && (!is(seq, *Fasta) ==> sameslice(s0.(Fasta).Data, bytesOf(seq)) && (is(infoOf(seq), string) ==> s0.(Fasta).Desc == infoOf(seq).(string)) && (!is(infoOf(seq), string) ==> s0.(Fasta).Desc == strOf(infoOf(seq))))
+//@   decreases ite(is(seq, Fasta), 0, 1)
+
+// The value the FASTA parser builds from the tokens go-pars hands it: the description is the
+// text of the '>' line, the residues are the body split at line feeds and joined with nothing.
+//@ func FastaParser$1(result *pars.Result) (err error)
+//@   prop C17
+//@   requires !isnil(result) && len(result.Children) >= 3
+//@   callpre Split(s0, sep0): sameslice(s0, result.Children[2].Token) && len(sep0) == 1 && sep0[0] == 10
+//@   callpre Join(l0, sep0): sameslice(l0, lines) && len(sep0) == 0
+//@   callpre SetValue(v0): is(v0, Fasta) && v0.(Fasta).Desc == desc && sameslice(v0.(Fasta).Data, data)
+//@   ensures isnil(err)
+
+// Writer selection.
+//@ func NewWriter(w io.Writer, filetype FileType) (sw SeqWriter)
+//@   prop C17
+//@   ensures filetype == FastaFile ==> is(sw, FastaWriter) && sw.(FastaWriter).w == w
+//@   ensures filetype == GenBankFile ==> is(sw, GenBankWriter) && sw.(GenBankWriter).w == w
+//@   ensures filetype != FastaFile && filetype != GenBankFile ==> is(sw, AutoWriter) && sw.(AutoWriter).w == w && isnil(sw.(AutoWriter).sw)
+//@   assigns nothing
+//@ func detectWriter(seq gts.Sequence, w io.Writer) (sw SeqWriter, err error)
+//@   prop C17
+//@   ensures is(seq, Fasta) || is(seq, *Fasta) ==> isnil(err) && is(sw, FastaWriter) && sw.(FastaWriter).w == w
+//@   ensures is(seq, GenBank) || is(seq, *GenBank) ==> isnil(err) && is(sw, GenBankWriter) && sw.(GenBankWriter).w == w
+//@   ensures isnil(err) ==> (is(sw, FastaWriter) && sw.(FastaWriter).w == w) || (is(sw, GenBankWriter) && sw.(GenBankWriter).w == w)
+//@   assigns nothing
+//@ func ToFileType(name string) (t FileType)
+//@   prop C17
+//@   ensures name == "fasta" ==> t == FastaFile
+//@   ensures name == "gb" || name == "genbank" ==> t == GenBankFile
+//@   ensures t == FastaFile ==> name == "fasta"
+//@   assigns nothing
+//@ func (gb GenBank) Bytes() (p []byte)
+//@   prop C17
+//@   requires !isnil(gb.Origin) && len(gb.Origin.Buffer) <= 1099511627776
+//@   requires !gb.Origin.Parsed ==> 0 <= nres(len(gb.Origin.Buffer)) && len(gb.Origin.Buffer) == olen(nres(len(gb.Origin.Buffer)))
+//@   ensures old(gb.Origin.Parsed) ==> sameslice(p, old(gb.Origin.Buffer))
+//@   ensures !old(gb.Origin.Parsed) ==> len(p) == nres(old(len(gb.Origin.Buffer))) && (forall k in 0..len(p): p[k] == old(gb.Origin.Buffer[opos(k)]))
+//@   assigns gb.Origin
